@@ -15,7 +15,7 @@ CLAIM = dict(
     note='Units part (harness measurement, guard in Trace_Newton.tla): Ok => |x - x*| <= 8*(tol + delta^2 + eps(|x*|+1)) for families with analytically known simple roots and guesses inside the provable '
          'quadratic-convergence ball (radius <= m1/(2 M2): scalar families have sup|f\'|/inf|f\'| <= 2 on the ball, so |dx| <= tol implies |e| <= 8/3 tol before the last step; systems are diagonally dominant '
          'with gap >= 1.05 on the ball, so residual <= tol implies |e| <= tol (Varah)). Success is REQUIRED from limit 14 on (calibrated: worst observed 5-6 steps; 2x rule), failure is REQUIRED for the root-free, '
-         'non-differentiable, NaN and constant families (criterion provably never met). Iterations are not observable hook-free; "at most maxIter steps" is decided through the evaluation bound, limit 0/1 cases and prefix closure. '
+         'non-differentiable, NaN and constant families (criterion provably never met). Iterations are not observable hook-free; "exactly maxIter steps when the criterion is never met" is decided by the ladder rule (per-step cost inferred from the limit-1 run of the same object, nothing hard-coded), plus the evaluation bound, limit 0/1 cases and prefix closure. '
          'The vector variants expose no parameters() (needs T: Copy): their configuration is checked through behaviour (second call identical). Trusted: TLC, the recording closures and family definitions in newton.rs.',
     design='4 (C17)')
 
@@ -52,6 +52,10 @@ def check(ctx):
              'diagonally dominant nonlinear systems (sine / square nonlinearity) of dimension 1..6 with exact Jacobians, guesses throughout the provable basin, tol 1e-12..1e-4, limits 0..50; '
              '(ii-b) systems of dimension 3..6 whose Jacobians have exact structural zeros in every arrangement (cyclic forward/backward, lower/upper triangular, arrow, chained 2-blocks, random sparse 1-2 off-diagonals per row) '
              'with coupling at 0.8-0.95 of the dominance limit (gap still >= 1.05), all four system variants; a quarter to a half of the systems list their equations in a permuted order (same root, same basin; the dense solve must pivot past zero entries); '
-             '(iii) root-free, non-differentiable, NaN-producing, constant functions, a double root and a divergent iteration. Three solves per case. An end event is non-trivial if the solve evaluated a closure or the limit is 0; '
+             '(iii) root-free, non-differentiable, NaN-producing, constant functions, a double root and a divergent iteration; '
+             '(iv) ladders: never-converging functions (root-free, constant, non-differentiable, z^2 with tol 1e-300) solved under limits 1, 0, 2, 3, 5, 8, 13, 20, 50 on one object, all six variants: '
+             'closure calls under limit m = m x calls under limit 1 (exactly m steps), every run a prefix of the longer ones, Err carries a point of step m+1; '
+             '(v) reconfiguration sequences: solve, then every ordered arrangement of every non-empty subset of tolerance/delta/iterations/guess (64) plus same-value sets, guess(root), iterations(0), solve again: '
+             'must be bit-identical (points, verdict, value) to a fresh object with the final configuration, parameters() = final values. Three solves per std/seq case, nine per ladder. An end event is non-trivial if the solve evaluated a closure or the limit is 0; '
              'distinct = distinct (bit patterns, verdict) tuples.',
         trusted=['recording closures and function families (harness/src/suites/newton.rs)', 'analytic roots / basin radii computed in newton.rs', 'TLC', 'Newton.tla'])
